@@ -19,6 +19,7 @@ import Golib.Proof.C11Prog
 import Golib.Proof.C11Classic
 import Golib.Proof.C11Init
 import Golib.Proof.C11Plain
+import Golib.Proof.C11Driver
 
 namespace Golib.C11
 
@@ -304,6 +305,31 @@ theorem c11_initial_content (vals : List Int) (pr0 : List Call) (rest : List (Li
       (List.replicate (5 * vals.length) 0)).1 = init vals (pr0 :: rest) := by
     rw [seqState_init, seqState_run]; simp [seqState_done]
   exact ⟨h, by rw [run_append_fst, h]⟩
+
+/-- `c11_driver_runs_model`: the tie is a run of THIS model.  One `step <tid>` line of a
+protocol case (the driver's `macroStep`: the atomic access, then the plain accesses and the
+tick receive at which the Go shims cannot park a goroutine) is between one and five
+consecutive model steps of that thread; the call token `t<k>` of a case is parsed to
+`Call.popWaitT k` (`PopWait(d>0)` whose deadline is observed on its `k`-th tick — in the Go
+harness the scheduler's time shim gives the thread exactly that tick budget).  Hence every
+state compared with the real code on the scheduler-driven cases, including the timed
+`PopWait` ones, is `(run … (init vals progs) σ).1` for a schedule `σ`, and `c11_popwait_timed`,
+`c11_history`, `c11_lin_fifo`, `c11_len_abstract`, … apply to exactly those traces. -/
+theorem c11_driver_runs_model (s : State) (i : Nat) :
+    ∃ m, 1 ≤ m ∧ m ≤ 5 ∧
+      (macroStep .addThenStore s i).1 = (run .addThenStore s (List.replicate m i)).1 :=
+  macroStep_is_run .addThenStore s i
+
+/-- Non-vacuity: the `step 0` line on which a timed `PopWait` (deadline on its first tick) finds
+the list empty — the driver performs the failing tail load AND the tick receive (two model
+steps), leaving the thread in front of the Pop of its deadline tick with no ticks left. -/
+example :
+    let s := (run .addThenStore (init [] [[.popWaitT 1], [.push 7]]) [0]).1
+    (macroStep .addThenStore s 0).2.acc = .ldTail 0 ∧ (macroStep .addThenStore s 0).2.ret = none ∧
+    (macroStep .addThenStore s 0).1 = (run .addThenStore s [0, 0]).1 ∧
+    (macroStep .addThenStore s 0).1.threads.map (fun th => (th.pc, th.ticks)) =
+      [(.popLoadHead, 0), (.pushLoadTail 7, 0)] := by
+  decide
 
 /-- `c11_push_completes_solo`: in every reachable state in which all other threads are
 idle, a `Push` at its loop head returns after exactly five of its own steps. -/
